@@ -10,7 +10,13 @@
              10 i  bookkeeping section of instance i      11 d  advance the clock     12 k  k-th parked timer callback runs
              13 rinr  new WaitExited caller   14 a  its next section   15 a  cancel its context   16 a code  its error channel fires
              18 c  the owner of root context c cancels it (the container is not told)
-   Outcomes: 0 nil, 1 context.Canceled, e+2 error e.
+   Outcomes: 0 nil, 1 context.Canceled ITSELF, e+2 error e.  The harness reports context.DeadlineExceeded as 97, the cause of a
+   context cancelled with a cause as 98 and any other error (a wrapped Canceled, ...) as 99: the n-th WaitExited caller of a
+   history gets a context of flavour n mod 4 (1: it ends like a deadline, 3: it is cancelled with a cause, 0 / 2: plain
+   WithCancel) and the root contexts are 1, 5 plain, 2 ending like a deadline also for the contexts derived from it, 3 cancelled
+   with a cause, 4 ending like a deadline on the root only.  The code under test returns / reports the literal context.Canceled
+   for all of them (WaitExited of a caller whose context ended; the exit of an instance cancelled before it started), so the
+   flavour is not part of the events; the clauses 14/4 and 14/5 judge the codes.
    Observation after every event:
      rets  ninst (code arg root canc)*  nchan status*  ndelta outcome*  nwait wcode*  nparked
      instance code 1 at first gate, 2 blocked, 3 in user code (then arg, root context, ctx.Err()!=nil), 4 parked before
